@@ -5,7 +5,9 @@ package main
 
 import (
 	"fmt"
+	"go/token"
 	"go/types"
+	"sort"
 	"strings"
 
 	"golang.org/x/tools/go/ssa"
@@ -44,6 +46,8 @@ func checkC16(c *Ctx, r *Report) {
 	c16Dispatcher(c, r)
 	c16ExceptionLayout(c, r)
 	c16Isolation(c, r)
+	r.floor("R16.6", 20)
+	c16SharedState(c, r)
 	r.assumption("handler-built responses and handler-typed errors are outside the property; function codes are 1..127")
 	r.assumption("the assembler calls the dispatcher only with a frame the classifier accepted and that is completely buffered (C15 R15.1)")
 }
@@ -500,5 +504,107 @@ func c16Isolation(c *Ctx, r *Report) {
 				}
 			}
 		}
+	}
+}
+
+// globalBase reports whether the address is (derived from) a package-level variable: the
+// variable itself, a field/element of it, or memory reached through a pointer loaded from it.
+func globalBase(v ssa.Value, depth int, seen map[ssa.Value]bool) *ssa.Global {
+	if v == nil || depth > 12 || seen[v] {
+		return nil
+	}
+	seen[v] = true
+	switch x := v.(type) {
+	case *ssa.Global:
+		return x
+	case *ssa.FieldAddr:
+		return globalBase(x.X, depth+1, seen)
+	case *ssa.IndexAddr:
+		return globalBase(x.X, depth+1, seen)
+	case *ssa.UnOp:
+		if x.Op == token.MUL {
+			return globalBase(x.X, depth+1, seen)
+		}
+	case *ssa.Slice:
+		return globalBase(x.X, depth+1, seen)
+	case *ssa.ChangeType:
+		return globalBase(x.X, depth+1, seen)
+	case *ssa.Phi:
+		for _, e := range x.Edges {
+			if g := globalBase(e, depth+1, seen); g != nil {
+				return g
+			}
+		}
+	}
+	return nil
+}
+
+// c16SharedState: R16.6 — the reply to one request is a function of that request only: nothing
+// reachable from the per-connection path (connection handler, assembler, classifier,
+// dispatcher, reply encoders) writes package-level state, directly or through a pointer loaded
+// from a package-level variable (a shared error value patched per request is visible to every
+// other connection).
+func c16SharedState(c *Ctx, r *Report) {
+	var roots []*ssa.Function
+	for _, fn := range c.allFuncs("server") {
+		if fn.Signature.Recv() != nil && fn.Parent() == nil && (fn.Name() == "handle" || fn.Name() == "ReceiveRead") {
+			roots = append(roots, fn)
+		}
+	}
+	roots = append(roots, c.fnMust("packet", "LooksLikeModbusTCP"), c.fnMust("packet", "ParseTCPRequest"))
+	cg := c.callGraph()
+	reach := map[*ssa.Function]bool{}
+	var walk func(f *ssa.Function)
+	walk = func(f *ssa.Function) {
+		if f == nil || reach[f] || !c.inModule(f) {
+			return
+		}
+		reach[f] = true
+		for _, an := range f.AnonFuncs {
+			walk(an)
+		}
+		if n := cg.Nodes[f]; n != nil {
+			for _, e := range n.Out {
+				walk(e.Callee.Func)
+			}
+		}
+	}
+	for _, f := range roots {
+		walk(f)
+	}
+	var fns []*ssa.Function
+	for f := range reach {
+		fns = append(fns, f)
+	}
+	sort.Slice(fns, func(i, j int) bool { return fns[i].String() < fns[j].String() })
+	nstores, bad := 0, 0
+	for _, fn := range fns {
+		if fn.Synthetic != "" && fn.Name() == "init" {
+			continue
+		}
+		r.funcs[fnID(fn)] = true
+		for _, b := range fn.Blocks {
+			for _, in := range b.Instrs {
+				var addr ssa.Value
+				switch x := in.(type) {
+				case *ssa.Store:
+					addr = x.Addr
+				case *ssa.MapUpdate:
+					addr = x.Map
+				}
+				if addr == nil {
+					continue
+				}
+				nstores++
+				if g := globalBase(addr, 0, map[ssa.Value]bool{}); g != nil {
+					bad++
+					r.fail("R16.6", fnID(fn), "the per-connection path writes memory reached from package-level variable "+g.Name()+": concurrent connections (and later requests) observe each other's data", c.pos(in.Pos()), addr.String(), "global-write:"+g.Name())
+				}
+			}
+		}
+	}
+	r.instance("R16.6", len(fns))
+	if bad == 0 {
+		r.ok("R16.6", "server.(*connection).handle", fmt.Sprintf("none of the %d stores in the %d module functions reachable from the per-connection path writes package-level state or memory loaded from it", nstores, len(fns)), "-", true)
 	}
 }
